@@ -11,7 +11,7 @@
     [comment_ok c]: no line terminator inside [strip c].  Comments come back as [strip c] (the writer strips
     them): unchanged exactly when they have no leading/trailing white space; a leading '#' survives.
     gzip is "transport = identity on the text" (runtime half: harness/props/c14.py). *)
-From Coq Require Import String Ascii List Bool Arith.
+From Coq Require Import String Ascii List Bool Arith ZArith.
 From Dadi Require Import Model.FileFormat Proofs.FileFormatBase Proofs.FileFormatProofs.
 Import ListNotations.
 Local Open Scope list_scope.
@@ -97,6 +97,70 @@ Theorem C14_pickle_roundtrip :
 Proof. exact (@pickle_roundtrip). Qed.
 Print Assumptions C14_pickle_roundtrip.
 
+(** ---- memory layouts.  A Spectrum's data and mask are strided views on memory blocks ([view]: block, offset,
+    shape, strides - C-contiguous, transposed by reorder_pops / .T / swapaxes, Fortran order, stepped or reversed
+    slices, stride-0 broadcast mask).  What the file format, the pickler and every comparison talk about is the
+    LOGICAL content [v_ravel] (entries in C order of their indices), never the order of the cells in memory. *)
+
+(** the file round trip preserves the logical content whatever the layout (current and pre-1.3 format) *)
+Theorem C14_roundtrip_any_layout :
+  forall (num : Type) (fmt : nat -> num -> string) (parse : string -> num) (round : nat -> num -> num),
+    (forall p x, parse (fmt p x) = round p x) -> (forall p x, tok_ok (fmt p x) = true) ->
+  forall p comments mask_corners foldmaskinfo (d : num) (dv : view num) (mv : view bool) folded labels extrap,
+    shape_ok (v_shape dv) = true -> v_shape mv = v_shape dv ->
+    labels_len_ok (v_shape dv) labels = true ->
+    match labels with None => true | Some ls => forallb label_ok ls end = true ->
+    Forall (fun c => comment_ok c = true) comments ->
+    from_file parse mask_corners (to_file fmt p comments foldmaskinfo (spectrum_of_views d dv mv folded labels extrap))
+    = Some (map strip comments,
+            (if foldmaskinfo then after_file else after_old_file) round p mask_corners
+              (spectrum_of_views d dv mv folded labels extrap)).
+Proof. exact roundtrip_views. Qed.
+Print Assumptions C14_roundtrip_any_layout.
+
+(** two layouts holding the same entries give the same file *)
+Theorem C14_file_layout_independent :
+  forall (num : Type) (fmt : nat -> num -> string) p comments foldmaskinfo (d : num) dv dv' mv mv' folded labels extrap,
+    v_shape dv = v_shape dv' -> v_shape mv = v_shape mv' ->
+    (forall idx, In idx (indices (v_shape dv)) -> v_get d dv idx = v_get d dv' idx) ->
+    (forall idx, In idx (indices (v_shape mv)) -> v_get false mv idx = v_get false mv' idx) ->
+    to_file fmt p comments foldmaskinfo (spectrum_of_views d dv mv folded labels extrap)
+    = to_file fmt p comments foldmaskinfo (spectrum_of_views d dv' mv' folded labels extrap).
+Proof. exact file_layout_independent. Qed.
+
+(** for a C-contiguous array memory order and logical order coincide (the only layout a generator of fresh arrays
+    produces), and the file of any spectrum is the file of its C-contiguous copy *)
+Theorem C14_contiguous_memory_order_is_logical_order :
+  forall (A : Type) (d : A) sh l, length l = nprod sh -> v_ravel d (c_view sh l) = l.
+Proof. exact @c_view_ravel. Qed.
+
+Theorem C14_file_of_contiguous_copy :
+  forall (num : Type) (fmt : nat -> num -> string) p comments foldmaskinfo (d : num) dv mv folded labels extrap,
+    to_file fmt p comments foldmaskinfo (spectrum_of_views d dv mv folded labels extrap)
+    = to_file fmt p comments foldmaskinfo
+        (spectrum_of_views d (c_view (v_shape dv) (v_ravel d dv)) (c_view (v_shape mv) (v_ravel false mv)) folded labels extrap).
+Proof. exact file_of_contiguous_copy. Qed.
+
+Theorem C14_pickle_roundtrip_any_layout :
+  forall (num : Type) (d : num) dv mv folded labels extrap,
+    v_shape mv = v_shape dv -> labels_len_ok (v_shape dv) labels = true ->
+    spectrum_unpickler (spectrum_pickler (spectrum_of_views d dv mv folded labels extrap))
+    = Some (spectrum_of_views d dv mv folded labels extrap).
+Proof. exact pickle_roundtrip_views. Qed.
+Print Assumptions C14_pickle_roundtrip_any_layout.
+
+(** a writer that emits the cells in MEMORY order (numpy.nditer(self.data), ravel(order='K'), the raw buffer) under
+    the logical shape is not a round trip: dense, in-bounds witness = a 3x2 spectrum transposed to 2x3, which is
+    what reorder_pops([2,1]) returns *)
+Theorem C14_memory_order_writer_refuted :
+  exists (dv : view tnum) (mv : view bool),
+    v_inbounds dv = true /\ v_inbounds mv = true /\ shape_ok (v_shape dv) = true /\ v_shape mv = v_shape dv /\
+    length (v_buf dv) = nprod (v_shape dv) /\ length (v_buf mv) = nprod (v_shape dv) /\
+    from_file tn_parse false (to_file tn_fmt 17 [] true (spectrum_in_memory_order dv mv false None None))
+    <> Some ([], after_file tn_round 17 false (spectrum_of_views NaN dv mv false None None)).
+Proof. exact memory_order_writer_refuted. Qed.
+Print Assumptions C14_memory_order_writer_refuted.
+
 (** documented limitation (not promised by the property): a label containing a double quote is not read back.
     [tnum] = naturals + inf/-inf/nan with exact printing: an instance satisfying the oracle hypotheses
     ([tn_parse_fmt], [tn_fmt_tok]). *)
@@ -124,4 +188,20 @@ Proof.
            (mkSpec [2; 1; 3] [Fin 15; PInf; Fin 3; NaN; NInf; Fin 0]
                    [true; false; false; false; true; false] true (Some ["pop one"; ""; " c "]) (Some (Fin 5)))
            eq_refl ltac:(repeat constructor)).
+Qed.
+
+(** non-vacuity of the layout theorems: a 2x3 folded spectrum held as the transpose of a 3x2 block (strides 1,2)
+    with a stride-0 (broadcast) mask; the logical content is what comes back *)
+Example C14_any_layout_nonvacuous :
+  from_file tn_parse false
+    (to_file tn_fmt 17 ["c"] true
+       (spectrum_of_views NaN (mkView [Fin 1; Fin 2; Fin 3; PInf; Fin 5; Fin 6] 0%Z [2; 3] [1%Z; 2%Z])
+                          (mkView [false] 0%Z [2; 3] [0%Z; 0%Z]) true (Some ["a b"; "c"]) None))
+  = Some (["c"], mkSpec [2; 3] [Fin 1; Fin 3; Fin 5; Fin 2; PInf; Fin 6] [false; false; false; false; false; false]
+                        true (Some ["a b"; "c"]) None).
+Proof.
+  exact (roundtrip_views tnum tn_fmt tn_parse tn_round tn_parse_fmt tn_fmt_tok 17 ["c"] false true NaN
+           (mkView [Fin 1; Fin 2; Fin 3; PInf; Fin 5; Fin 6] 0%Z [2; 3] [1%Z; 2%Z])
+           (mkView [false] 0%Z [2; 3] [0%Z; 0%Z]) true (Some ["a b"; "c"]) None
+           eq_refl eq_refl eq_refl eq_refl ltac:(repeat constructor)).
 Qed.
